@@ -99,29 +99,32 @@ def build(repo, tier, seed):
     def init_cc(e):
         st = State(); st.pc += [n >= 0, start >= 0, length >= 0]
         yield st, [SBytes(data, n), SInt(start), SInt(length)]
-    def inv_cc(st, e):
-        d = st.locals["data"]; f, ok = fit(st.locals["fcs"], 16)
-        i_ = to_int(st.locals["i"]); s_ = to_int(st.locals["start"])
-        return z3.And(ok, f == S.FOLD(d.arr, s_, i_), z3.Or(i_ == s_, i_ <= d.n))
-    eng.loop_specs[(Q + "compute_checksum", 0)] = (inv_cc, None, {"fcs": 16})
-    # cut: after the statement that assigns fcs inside the loop, fcs' == fcs16_bit(fcs, data[i])  (proved revealed, used opaque)
+    # the loop's variables are found by role (for-target; the one loop-carried accumulator), not by name
     fn_cc = eng.funcs[Q + "compute_checksum"][0]
-    loops = [x for x in ast.walk(fn_cc) if isinstance(x, ast.For)]
+    loops = [x for x in ast.walk(fn_cc) if isinstance(x, (ast.For, ast.While))]
     if len(loops) != 1: raise Unsupported("compute_checksum: expected exactly one loop")
+    roles = loop_roles(fn_cc, loops[0]); IDX = roles["index"]; accs = [c for c in roles["carried"] if c != IDX]
+    if IDX is None or len(accs) != 1: raise Unsupported(f"compute_checksum: loop roles not recognised ({roles})")
+    ACC = accs[0]
+    def inv_cc(st, e):
+        d = st.locals["data"]; f, ok = fit(st.locals[ACC], 16)
+        i_ = to_int(st.locals[IDX]); s_ = to_int(st.locals["start"])
+        return z3.And(ok, f == S.FOLD(d.arr, s_, i_), z3.Or(i_ == s_, i_ <= d.n))
+    # cut: after the statement that assigns the accumulator inside the loop, acc' == fcs16_bit(acc, data[i])  (proved revealed, used opaque)
     body = loops[0].body
-    fcs_stmts = [b for b in body if eng.stmt_selector(b) in ("assign:fcs", "augassign:fcs")]
-    if not fcs_stmts: raise Unsupported("compute_checksum: no assignment to fcs in the loop")
+    fcs_stmts = [b for b in body if eng.stmt_selector(b) in (f"assign:{ACC}", f"augassign:{ACC}")]
+    if not fcs_stmts: raise Unsupported("compute_checksum: no assignment to the accumulator in the loop")
     last = fcs_stmts[-1]
     def cut_last(st, e):
-        f, ok = fit(st.locals["fcs"], 16)
-        return z3.And(ok, f == S.fcs16_bit(st.ghost["fcs_in"], st.locals["data"].at(to_int(st.locals["i"]))))
+        f, ok = fit(st.locals[ACC], 16)
+        return z3.And(ok, f == S.fcs16_bit(st.ghost["fcs_in"], st.locals["data"].at(to_int(st.locals[IDX]))))
     eng.cuts[(Q + "compute_checksum", last.lineno)] = cut_last
-    # ghost assignment at loop head: wrap inv so that the havocked state records fcs_in
+    # ghost assignment at loop head: wrap inv so that the havocked state records the accumulator's value on entry to the iteration
     def inv_cc_ghost(st, e):
         g = inv_cc(st, e)
-        if isinstance(st.locals.get("fcs"), SBV): st.ghost["fcs_in"] = to_bv(st.locals["fcs"], 16)
+        if isinstance(st.locals.get(ACC), SBV): st.ghost["fcs_in"] = to_bv(st.locals[ACC], 16)
         return g
-    eng.loop_specs[(Q + "compute_checksum", 0)] = (inv_cc_ghost, None, {"fcs": 16})
+    eng.loop_specs[(Q + "compute_checksum", 0)] = (inv_cc_ghost, None, {ACC: 16})
     def post_cc(st, args, res, old, e):
         r, ok = fit(res, 16)
         yield "window inside the data on normal return", z3.Or(start + length <= n, length == 0)
